@@ -43,3 +43,40 @@ def fmt_call(prefix, exprs):
     if not exprs:
         return 'format!("%s")' % prefix
     return 'format!("%s%s", %s)' % (prefix, "|{}" * len(exprs), ", ".join(exprs))
+
+
+# ---------------------------------------------------------------------------------------------
+# Module item alphabet (C02 mod mode, C08).  `{n}` = position in the module (unique names),
+# `{key}` = name of the enclosing state module.  member=True: the item is a function the
+# generated trait must contain (name `a{n}`).
+# ---------------------------------------------------------------------------------------------
+ANY = "&impl ::core::any::Any"
+MOD_ITEMS = {
+    # visible functions: every visibility qualifier / every fn qualifier
+    "pub":      dict(src="pub fn a{n}(deps: %s) -> u32 {{ {n} }}" % ANY, member=True, call="sync"),
+    "crate":    dict(src="pub(crate) fn a{n}(deps: %s) -> u32 {{ {n} }}" % ANY, member=True, call="sync"),
+    "super":    dict(src="pub(super) fn a{n}(deps: %s) -> u32 {{ {n} }}" % ANY, member=True, call="sync"),
+    "in":       dict(src="pub(in crate::{key}) fn a{n}(deps: %s) -> u32 {{ {n} }}" % ANY, member=True, call="sync"),
+    "async":    dict(src="pub async fn a{n}(deps: %s) -> u32 {{ {n} }}" % ANY, member=True, call="async"),
+    "unsafe":   dict(src="pub unsafe fn a{n}(deps: %s) -> u32 {{ {n} }}" % ANY, member=True, call="unsafe"),
+    "extern":   dict(src="pub extern \"C\" fn a{n}(deps: %s) -> u32 {{ {n} }}" % ANY, member=True, call="sync"),
+    "const":    dict(src="pub const fn a{n}(deps: %s) -> u32 {{ {n} }}" % ANY, member=True, call=None,
+                     compiles=False),  # const fn cannot be a trait method: token view only
+    # things that must NOT become trait methods
+    "priv":     dict(src="fn p{n}(deps: %s) -> u32 {{ {n} }}" % ANY, member=False),
+    "struct":   dict(src="pub struct S{n} {{ pub f: u8 }}\n    impl S{n} {{ pub fn g{n}(&self) -> u32 {{ 0 }} pub(crate) fn h{n}() {{}} }}", member=False),
+    "mod":      dict(src="pub mod inner{n} {{ pub fn nested{n}(deps: %s) -> u32 {{ 0 }} }}" % ANY, member=False),
+    "foreign":  dict(src="extern \"C\" {{ pub fn ext{n}(x: i32) -> i32; }}", member=False),
+    "macro":    dict(src="macro_rules! mr{n} {{ () => {{ pub fn generated{n}(deps: &()) {{}} }}; (;) => {{ ; }}; }}", member=False),
+    "bodyless": dict(src="pub fn decl{n}(deps: %s) -> u32;" % ANY, member=False, compiles=False),
+    "constblk": dict(src="pub const K{n}: fn() -> u32 = {{ pub fn inner() -> u32 {{ 1 }} inner }};", member=False),
+    "use":      dict(src="pub use ::core::{{any as any{n}, fmt as fmt{n}}};", member=False),
+    "static":   dict(src="pub static ST{n}: u8 = {{ 1 }} + {{ 2 }};", member=False),
+    "trait":    dict(src="pub trait Tt{n} {{ fn tf{n}(&self) -> u32 {{ 0 }} fn tg{n}(&self); }}", member=False),
+}
+MOD_ITEM_ORDER = ["pub", "priv", "crate", "struct", "super", "async", "mod", "unsafe", "foreign", "in", "macro",
+                  "extern", "bodyless", "constblk", "use", "static", "trait", "const"]
+
+
+def mod_item_src(sym, n, key):
+    return MOD_ITEMS[sym]["src"].format(n=n, key=key)
